@@ -260,7 +260,16 @@ def _sweep(run, prog, ts):
             form_b = it[0] == "comp" and it[1] in ("list", "set") and keys_of(it[3]) and it[5] == ("elem", it[2]) and \
                 len(it[6]) == 1 and stale_test(it[6][0], ("elem", it[2])) and not own
             ok = form_a or form_b
-            if not ok:
+            if ok:
+                # the sweep itself must not depend on anything but "a reservoir was just created": a test on the number of
+                # reservoirs / leaves that skips it leaves reservoirs of vanished leaves behind
+                extra = [g for g in dctx.guards if g not in own and
+                         any(t == res or t == enum_res for t in ir.subterms(g)) and
+                         not (g[0] == "cmp" and g[1] == "not in" and g[3] == res)]
+                if extra:
+                    ok, why = False, (f"the sweep is skipped unless {ir.show_nl(extra[0])[:120]}: reservoirs of leaves that "
+                                      f"left the tree survive whenever that test fails")
+            if not ok and not why:
                 live = keys_of(it)
                 why = ("the loop iterates the live dict while deleting from it" if live else
                        f"ids are deleted under {ir.show_nl(own[-1])[:100] if own else ir.show_nl(it)[:100]}, "
